@@ -11,6 +11,7 @@ SchedEat(d, eat)   == Cmd("sched", "", d, 1, eat)
 ShutdownC          == Cmd("shutdown", "", 0, 1, 0)
 RestartC(d)        == Cmd("restart", "", d, 1, 0)
 PanicC             == Cmd("panic", "", 0, 1, 0)
+SetCatch(b)        == Cmd("setcatch", "", b, 1, 0)
 
 (* T1: a.out --ch1--> b.in ; b.out --> a.in (no channel) *)
 ModsAB == <<"a", "b">>
@@ -54,7 +55,7 @@ StartChan == [m \in {"a", "b", "c"} |-> IF m = "a" THEN MenuChanA ELSE {<<>>}]
 MenuLifeA == {<<>>, <<Send("ao", 1)>>, <<Send("ao", 1), Sched(1)>>, <<Sched(2)>>}
 MenuLifeB == {<<>>, <<Send("bo", 1)>>, <<ShutdownC>>, <<RestartC(2)>>, <<Send("bo", 1), RestartC(1)>>, <<Sched(1), ShutdownC>>, <<RestartC(0)>>}
 MenuLife == [m \in {"a", "b", "c"} |-> IF m = "a" THEN MenuLifeA ELSE IF m = "b" THEN MenuLifeB ELSE {<<>>}]
-StartLife == [m \in {"a", "b", "c"} |-> IF m = "a" THEN {<<Send("ao", 1), Sched(1)>>, <<Sched(1)>>} ELSE {<<>>, <<Sched(2)>>}]
+StartLife == [m \in {"a", "b", "c"} |-> IF m = "a" THEN {<<Send("ao", 1), Sched(1)>>, <<Sched(1)>>} ELSE {<<>>, <<Sched(2)>>, <<Send("bo", 1)>>}]
 (* C09 with a transit module that goes down *)
 MenuTransA == {<<>>, <<Send("at", 1)>>, <<Send("at", 1), Sched(1)>>, <<SendIn("at", 1, 1)>>}
 MenuTransC == {<<>>, <<ShutdownC>>, <<RestartC(2)>>}
@@ -62,7 +63,8 @@ MenuTrans == [m \in {"a", "b", "c"} |-> IF m = "a" THEN MenuTransA ELSE IF m = "
 StartTrans == [m \in {"a", "b", "c"} |-> IF m = "a" THEN {<<Send("at", 1), Sched(1)>>} ELSE IF m = "c" THEN {<<>>, <<Sched(1)>>, <<Sched(2)>>} ELSE {<<>>}]
 (* C13: panics *)
 MenuPanicA == {<<>>, <<Send("ao", 1)>>, <<Send("ao", 1), Sched(1)>>, <<PanicC>>, <<Send("ao", 1), PanicC>>}
-MenuPanicB == {<<>>, <<Send("bo", 1)>>, <<PanicC>>, <<Send("bo", 1), Sched(1), PanicC>>, <<Sched(1)>>}
+MenuPanicB == {<<>>, <<Send("bo", 1)>>, <<PanicC>>, <<Send("bo", 1), Sched(1), PanicC>>, <<Sched(1)>>,
+               <<SetCatch(1), PanicC>>, <<SetCatch(0), Send("bo", 1), PanicC>>}
 MenuPanic == [m \in {"a", "b", "c"} |-> IF m = "a" THEN MenuPanicA ELSE IF m = "b" THEN MenuPanicB ELSE {<<>>}]
 StartPanic == [m \in {"a", "b", "c"} |-> IF m = "a" THEN {<<Send("ao", 1), Sched(1)>>, <<PanicC>>, <<Sched(1)>>} ELSE {<<>>, <<Sched(1)>>, <<PanicC>>}]
 (* C14: processing elements; `eat` = index (1-based) of the element that consumes the message *)
@@ -77,6 +79,9 @@ MenuBurstA == {<<>>, Burst24, Burst6, <<Sched(1), Sched(1), Send("ao", 2)>>}
 MenuBurst == [m \in {"a", "b", "c"} |-> IF m = "a" THEN MenuBurstA ELSE {<<>>, <<Send("bo", 1), Send("bo", 1)>>}]
 StartBurst == [m \in {"a", "b", "c"} |-> IF m = "a" THEN {Burst24, Burst6} ELSE {<<>>}]
 Stack2 == [m \in {"a", "b", "c"} |-> 2]
+Stack3 == [m \in {"a", "b", "c"} |-> 3]
+NoEndFail == {}
+EndFailA == {"a"}
 Stack012 == [m \in {"a", "b", "c"} |-> IF m = "a" THEN 1 ELSE IF m = "b" THEN 2 ELSE 0]
 Stages212 == [m \in {"a", "b", "c"} |-> IF m = "b" THEN 1 ELSE 2]
 CatchB == [m \in {"a", "b", "c"} |-> m = "b"]
